@@ -2,9 +2,9 @@
     [integrate ROps f a b eps depth] is the model of Integrate(func,a,b,epsilon,maxRecursionDepth)
     (coq/C03_Model.v) at the real-number instance; it returns (value, non-convergence warning, abscissae at
     which the integrand was called).  [val], [wrn], [trc] are the three projections. *)
-From Coq Require Import Reals ZArith List.
+From Coq Require Import Reals ZArith List Lra Bool Arith.
 From Coquelicot Require Import Coquelicot.
-From LP Require Import Num NumR C03_Model C03_Proofs C03_Proofs_Remainder C03_Proofs_Seq.
+From LP Require Import Num NumR C03_Model C03_Proofs C03_Proofs_Remainder C03_Proofs_Seq C03_Proofs_More C03_Proofs_Arith.
 Import ListNotations.
 Local Open Scope R_scope.
 
@@ -210,3 +210,181 @@ Theorem C03_reentrant_inner_quintic_exact (c0 c1 c2 c3 c4 c5 lo hi ieps : R -> R
   = E x (RInt (fun t => c0 x + c1 x * t + c2 x * t ^ 2 + c3 x * t ^ 3 + c4 x * t ^ 4 + c5 x * t ^ 5) (lo x) (hi x)).
 Proof. exact (reentrant_inner_quintic_exact c0 c1 c2 c3 c4 c5 lo hi ieps idepth E x). Qed.
 Print Assumptions C03_reentrant_inner_quintic_exact.
+
+(** The string overload under the regularity premises of the error bound: Integrate(f,a,b,"Adaptive-Simpson") chooses the
+    tolerance 1e-9 * (Simpson estimate on the ordered limits) itself ([eps_of], Find_Epsilon) and the depth 20; without a
+    warning its value is within four times that tolerance of the integral, limits in either order or equal. *)
+Theorem C03_method_error_bound (f f1 f2 f3 f4 : R -> R) (lo' hi' a b m sg : R) :
+  lo' < Rmin a b -> Rmax a b < hi' ->
+  (forall x, lo' < x < hi' -> is_derive f x (f1 x)) ->
+  (forall x, lo' < x < hi' -> is_derive f1 x (f2 x)) ->
+  (forall x, lo' < x < hi' -> is_derive f2 x (f3 x)) ->
+  (forall x, lo' < x < hi' -> is_derive f3 x (f4 x)) ->
+  sg = 1 \/ sg = -1 -> 0 < m ->
+  (forall x, Rmin a b <= x <= Rmax a b -> m <= sg * f4 x <= 4 * m) ->
+  wrn (integrate_method ROps f a b) = false ->
+  Rabs (val (integrate_method ROps f a b) - RInt f a b) <= 4 * Rabs (eps_of f (Rmin a b) (Rmax a b)).
+Proof. exact (method_error_bound f f1 f2 f3 f4 lo' hi' a b m sg). Qed.
+Print Assumptions C03_method_error_bound.
+
+(** ... and the error bound of an explicit call at any position of a sequence of calls made in one process. *)
+Theorem C03_error_bound_after_any_history (pre post : list (call (T := R))) (f f1 f2 f3 f4 : R -> R)
+    (lo' hi' a b eps m sg : R) (depth : Z) :
+  lo' < Rmin a b -> Rmax a b < hi' ->
+  (forall x, lo' < x < hi' -> is_derive f x (f1 x)) ->
+  (forall x, lo' < x < hi' -> is_derive f1 x (f2 x)) ->
+  (forall x, lo' < x < hi' -> is_derive f2 x (f3 x)) ->
+  (forall x, lo' < x < hi' -> is_derive f3 x (f4 x)) ->
+  sg = 1 \/ sg = -1 -> 0 < m ->
+  (forall x, Rmin a b <= x <= Rmax a b -> m <= sg * f4 x <= 4 * m) ->
+  exists r, List.nth_error (run_seq ROps tt (pre ++ CInt f a b eps depth :: post)) (length pre) = Some r /\
+            (wrn r = false -> Rabs (val r - RInt f a b) <= 4 * Rabs eps).
+Proof. exact (error_bound_after_any_history pre post f f1 f2 f3 f4 lo' hi' a b eps m sg depth). Qed.
+Print Assumptions C03_error_bound_after_any_history.
+
+(** * Clauses that hold in EVERY arithmetic (C03_Proofs_Arith.v).
+    The theorems above are about exact real arithmetic, where an integrand value is always a finite number.  The
+    theorems below are about the model over an arbitrary number type [T] with arbitrary operations [Ops]: in particular
+    the instance that is extracted and run against the C++ code (IEEE doubles with rounding, infinities, NaN).
+    [aval], [awrn], [atrc] are the three projections at type [T]. *)
+
+(** "the integrand is evaluated ... at most 2^(depth+2)+1 times" — for every integrand (whatever it returns: NaN,
+    infinities, values that overflow the estimates), every epsilon, every depth, every arithmetic.  No premise. *)
+Theorem C03_eval_count_any_arithmetic {T : Type} (Ops : NumOps T) (f : T -> T) (a b eps : T) (depth : Z) :
+  (length (atrc (integrate Ops f a b eps depth)) <= 2 ^ (Z.to_nat depth + 2) + 1)%nat.
+Proof. exact (integrate_count_any Ops f a b eps depth). Qed.
+Print Assumptions C03_eval_count_any_arithmetic.
+
+(** ... more precisely, for limits that do not compare equal the count is 4 L + 1 with 1 <= L <= 2^depth (L accepted or
+    forced panels: three first values, two more per node of a binary tree with L leaves); the check evaluates this
+    shape on the library's counts (an extra or a saved evaluation anywhere breaks it). *)
+Theorem C03_eval_count_shape {T : Type} (Ops : NumOps T) (f : T -> T) (a b eps : T) (depth : Z) :
+  neqb Ops a b = false ->
+  exists L, (1 <= L <= 2 ^ Z.to_nat depth)%nat /\
+            length (atrc (integrate Ops f a b eps depth)) = (4 * L + 1)%nat.
+Proof. exact (integrate_count_shape Ops f a b eps depth). Qed.
+Print Assumptions C03_eval_count_shape.
+
+(** the same through the string overload (Find_Epsilon's three evaluations first): 4 L + 4 with L <= 2^20 *)
+Theorem C03_method_count_shape {T : Type} (Ops : NumOps T) (f : T -> T) (a b : T) :
+  neqb Ops a b = false ->
+  neqb Ops (if ngtb Ops a b then b else a) (if ngtb Ops a b then a else b) = false ->
+  exists L, (1 <= L <= 2 ^ 20)%nat /\ length (atrc (integrate_method Ops f a b)) = (4 * L + 4)%nat.
+Proof. exact (method_count_shape Ops f a b). Qed.
+Print Assumptions C03_method_count_shape.
+
+(** "equal limits give zero" in every arithmetic: limits that compare equal (for doubles also +0 and -0) are answered
+    with zero, no warning and no evaluation. *)
+Theorem C03_equal_limits_any_arithmetic {T : Type} (Ops : NumOps T) (f : T -> T) (a b eps : T) (depth : Z) :
+  neqb Ops a b = true -> integrate Ops f a b eps depth = (n0 Ops, false, []).
+Proof. exact (integrate_equal_limits Ops f a b eps depth). Qed.
+Print Assumptions C03_equal_limits_any_arithmetic.
+
+(** "Swapping the limits negates the result exactly" — as a statement about the rounded computation: for two limits
+    that do not compare equal and are ordered one way or the other (any two distinct non-NaN doubles), in every
+    arithmetic in which (-1) * r = - (1 * r) and - - r = r (IEEE: exact sign operations), Integrate(f,b,a,..) is the
+    negation of Integrate(f,a,b,..) — the same bits with the sign flipped —, with the same warning and the same
+    evaluation points in the same order.  (Both calls run the recursion on the same ordered limits.) *)
+Theorem C03_swap_negates_any_arithmetic {T : Type} (Ops : NumOps T) (f : T -> T) (a b eps : T) (depth : Z) :
+  neqb Ops a b = false -> neqb Ops b a = false ->
+  nltb Ops a b = negb (nltb Ops b a) ->
+  (forall r, nmul Ops (nneg Ops (n1 Ops)) r = nneg Ops (nmul Ops (n1 Ops) r)) ->
+  (forall r, nneg Ops (nneg Ops r) = r) ->
+  aval (integrate Ops f b a eps depth) = nneg Ops (aval (integrate Ops f a b eps depth)) /\
+  awrn (integrate Ops f b a eps depth) = awrn (integrate Ops f a b eps depth) /\
+  atrc (integrate Ops f b a eps depth) = atrc (integrate Ops f a b eps depth).
+Proof. exact (swap_negates_any Ops f a b eps depth). Qed.
+Print Assumptions C03_swap_negates_any_arithmetic.
+
+Example C03_swap_negates_any_arithmetic_premises :
+  neqb ROps 0 1 = false /\ neqb ROps 1 0 = false /\ nltb ROps 0 1 = negb (nltb ROps 1 0) /\
+  (forall r, nmul ROps (nneg ROps (n1 ROps)) r = nneg ROps (nmul ROps (n1 ROps) r)) /\
+  (forall r, nneg ROps (nneg ROps r) = r).
+Proof.
+  cbn. repeat split.
+  - destruct (Reqb_spec 0 1); [lra|reflexivity].
+  - destruct (Reqb_spec 1 0); [lra|reflexivity].
+  - destruct (Rltb_spec 0 1), (Rltb_spec 1 0); try reflexivity; lra.
+  - intros; ring.
+  - intros; ring.
+Qed.
+
+(** "the sign of epsilon is irrelevant" in every arithmetic with |-eps| = |eps| (IEEE fabs clears the sign bit). *)
+Theorem C03_eps_sign_any_arithmetic {T : Type} (Ops : NumOps T) (f : T -> T) (a b eps : T) (depth : Z) :
+  nabs Ops (nneg Ops eps) = nabs Ops eps ->
+  integrate Ops f a b (nneg Ops eps) depth = integrate Ops f a b eps depth.
+Proof. exact (eps_sign_any Ops f a b eps depth). Qed.
+Print Assumptions C03_eps_sign_any_arithmetic.
+
+(** "the integrand is evaluated only inside the closed interval" from the order alone: in every arithmetic whose
+    comparison <= is transitive and in which the rounded midpoint (x + y) / 2 of two ordered numbers — operands of the
+    sum in either order — stays between them (IEEE doubles: whenever x + y does not overflow), every abscissa lies
+    between the ordered limits lo <= hi.  [lo], [hi] are the limits as ordered by Check_Integration_Limits. *)
+Theorem C03_eval_points_inside_any_order {T : Type} (Ops : NumOps T) (f : T -> T) (a b eps : T) (depth : Z) :
+  (forall x y z, nleb Ops x y = true -> nleb Ops y z = true -> nleb Ops x z = true) ->
+  (forall x y, nleb Ops x y = true ->
+     nleb Ops x (ndiv Ops (nadd Ops x y) (nofZ Ops 2)) = true /\ nleb Ops (ndiv Ops (nadd Ops x y) (nofZ Ops 2)) y = true /\
+     nleb Ops x (ndiv Ops (nadd Ops y x) (nofZ Ops 2)) = true /\ nleb Ops (ndiv Ops (nadd Ops y x) (nofZ Ops 2)) y = true) ->
+  let lo := if ngtb Ops a b then b else a in
+  let hi := if ngtb Ops a b then a else b in
+  nleb Ops lo lo = true -> nleb Ops hi hi = true -> nleb Ops lo hi = true ->
+  List.Forall (fun x => nleb Ops lo x = true /\ nleb Ops x hi = true) (atrc (integrate Ops f a b eps depth)).
+Proof. exact (fun Ht Hm => integrate_inside_any Ops Ht Hm f a b eps depth). Qed.
+Print Assumptions C03_eval_points_inside_any_order.
+
+Example C03_eval_points_inside_any_order_premises :
+  (forall x y z, nleb ROps x y = true -> nleb ROps y z = true -> nleb ROps x z = true) /\
+  (forall x y, nleb ROps x y = true ->
+     nleb ROps x (ndiv ROps (nadd ROps x y) (nofZ ROps 2)) = true /\ nleb ROps (ndiv ROps (nadd ROps x y) (nofZ ROps 2)) y = true /\
+     nleb ROps x (ndiv ROps (nadd ROps y x) (nofZ ROps 2)) = true /\ nleb ROps (ndiv ROps (nadd ROps y x) (nofZ ROps 2)) y = true).
+Proof.
+  cbn. split.
+  - intros x y z H1 H2. apply Rleb_true in H1, H2. apply Rleb_true. lra.
+  - intros x y H. apply Rleb_true in H. repeat split; apply Rleb_true; lra.
+Qed.
+
+(** Sequences of calls some of which are abandoned by their integrand (an exception thrown at its k-th evaluation passes
+    through the library): a request is a call and k (0 = the integrand never throws).  Every request answers like the
+    call made alone, or not at all when the call reaches its k-th evaluation, independently of the requests before it
+    ([run_seq_ab] threads the — empty — state through abandoned calls too; the check runs such sequences through the
+    library with calls of every kind abandoned at every stage). *)
+Theorem C03_history_free_with_abandoned_calls {T : Type} (Ops : NumOps T)
+    (pre post : list (call (T := T) * nat)) (c : call (T := T)) :
+  List.nth_error (run_seq_ab Ops tt (pre ++ (c, 0%nat) :: post)) (length pre) = Some (Some (run_call Ops c)).
+Proof. exact (history_free_ab Ops pre post c). Qed.
+Print Assumptions C03_history_free_with_abandoned_calls.
+
+Theorem C03_abandoned_calls_pointwise {T : Type} (Ops : NumOps T) (cs : list (call (T := T) * nat)) :
+  run_seq_ab Ops tt cs =
+  List.map (fun ck => if ((1 <=? snd ck) && (snd ck <=? length (atrc (run_call Ops (fst ck)))))%nat
+                      then None else Some (run_call Ops (fst ck))) cs.
+Proof. exact (run_seq_ab_pointwise Ops cs). Qed.
+Print Assumptions C03_abandoned_calls_pointwise.
+
+(** Refinement of Integrate to a simple specification (anchors: panel rule, acceptance, Richardson term, recursion on
+    halves with inherited values, limit ordering).  For distinct limits, with lo/hi the ordered limits and
+    [ps = panels f depth lo hi |eps|] the panels on which the recursion stops (accepted or forced by the depth), left to
+    right (C03_Proofs_More.v):
+    - the value is +-1 times the sum over the panels of the five-point value S2 + (S2 - S)/15 of that panel
+      ([panel_value]; inherited function values and estimates are exactly the ones a fresh evaluation would give),
+    - the integrand is evaluated 4 |ps| + 1 times, 1 <= |ps| <= 2^depth,
+    - the panels abut (each right end is the next left end), start at lo and end at hi,
+    - every panel is [lo,hi] halved k <= depth times.
+    Exactness on quintics and the error bound are statements about this composite rule. *)
+Theorem C03_integrate_is_composite_rule (f : R -> R) (a b eps : R) (depth : Z) :
+  a <> b ->
+  let lo := Rmin a b in let hi := Rmax a b in
+  let ps := panels f (Z.to_nat depth) lo hi (Rabs eps) in
+  val (integrate ROps f a b eps depth) = (if Rltb b a then -1 else 1) * sumR (List.map (panel_value f) ps) /\
+  length (trc (integrate ROps f a b eps depth)) = (4 * length ps + 1)%nat /\
+  (1 <= length ps <= 2 ^ Z.to_nat depth)%nat /\
+  List.map fst ps ++ [hi] = lo :: List.map snd ps /\
+  List.Forall (fun p => lo <= fst p /\ fst p < snd p /\ snd p <= hi /\
+                        exists k, (k <= Z.to_nat depth)%nat /\ snd p - fst p = (hi - lo) / 2 ^ k) ps.
+Proof. exact (integrate_is_composite_rule f a b eps depth). Qed.
+Print Assumptions C03_integrate_is_composite_rule.
+
+(** non-vacuity: x^4 on [0,1] with epsilon 1e-4 and depth 1 is split once: two panels *)
+Example C03_composite_rule_two_panels :
+  panels (fun x => x ^ 4) 1 0 1 (Rabs (1 / 10000)) = [(0, 1 / 2); (1 / 2, 1)].
+Proof. exact composite_rule_nonvacuous. Qed.
